@@ -733,7 +733,7 @@ def correspond(ctx):
       trusted_base=['correspondence harness corr_C04.py (sampled inputs; exact for integer lattices, 1e-9 for float64)',
                     'mjx.collision / contact.get: contacts enter the model as data (C10 models the geometry)',
                     'kinematics.inverse: a parameter of the step models (C08 models it)',
-                    'scan.link_types modelled as the per-link slicing it implements (Layer B stage 1)',
+                    'scan.link_types: grouped code transcribed and proved equal to the per-link slicing (Layer B stage 2, Props/C01.scanLinkTypes_coded_eq_slices); transcription tied exhaustively in the C01 check',
                     'jax.ops.segment_sum, take(mode=wrap) semantics as stated in DESIGN.md 3 (re-verified here by the '
                     'exact-lattice cases)'],
       assumptions=['IEEE round-off not modelled: theorems over an ordered field, "to round-off" is exact equality',
